@@ -1,12 +1,12 @@
 (* C18 driver.  Requests:
      cfg <kind> <type> <deref> <filename> <recursive> <verify> <exclude>
-        kind   = file|dir|linkfile|linkdir|stdin|url|gitrepo|missing|badurl|refusedurl
+        kind   = file|dir|linkfile|linkdir|stdin|url|gitrepo|missing|badurl|refusedurl|badrefs
         type   = auto|content|directory|origin|snapshot
         verify = none|match|nonmatch ; the flags are 0|1
         -> ok inscope=0|1 literal=0|1 des=<obj>,<excluded> model=<outcome> spec=<outcome> strict=<outcome>
-              old1=<outcome> old2=<outcome> old3=<outcome> old4=<outcome> old5=<outcome>
+              old1=<outcome> old2=<outcome> old3=<outcome> old4=<outcome> old5=<outcome> old6=<outcome>
            (old1..old5 = the code before each of the five repairs: realpath str, rectype, autolink, recfollows,
-            origin ValueError uncaught)
+            origin ValueError uncaught, StopIteration swallowed by zip/map; `silent` = nothing printed, exit 0)
            outcome = print,<obj>,<excluded>,<shown>,<listing> | usage | exit0 | exit1 | crash,<class>
      many <type> <deref> <filename> <recursive> <verify> <exclude> <kind,kind,...>   ("." = no argument)
         -> ok inscope=0|1 model=<run> spec=<run>
@@ -15,7 +15,7 @@
      count  -> ok <length all_cfgs> *)
 let kind_of = function
   | "file" -> AFile | "dir" -> ADir | "linkfile" -> ALinkFile | "linkdir" -> ALinkDir
-  | "stdin" -> AStdin | "url" -> AUrl | "gitrepo" -> AGitRepo | "missing" -> AMissing | "badurl" -> ABadUrl | "refusedurl" -> ARefusedUrl
+  | "stdin" -> AStdin | "url" -> AUrl | "gitrepo" -> AGitRepo | "missing" -> AMissing | "badurl" -> ABadUrl | "refusedurl" -> ARefusedUrl | "badrefs" -> ABadRefsRepo
   | _ -> failwith "kind"
 let type_of = function
   | "auto" -> TAuto | "content" -> TContent | "directory" -> TDirectory | "origin" -> TOrigin
@@ -26,13 +26,13 @@ let b x = if x then "1" else "0"
 let show_obj = function
   | OPathContent -> "pathcontent" | OLinkText -> "linktext" | OTargetFile -> "targetfile"
   | OEmptyContent -> "empty" | OStdin -> "stdin" | ODirAtPath -> "dirpath" | ODirAtLinkTarget -> "dirtarget"
-  | OOrigin -> "origin" | OSnapshot -> "snapshot" | ONothing -> "nothing" | ORefusedOrigin -> "refused"
+  | OOrigin -> "origin" | OSnapshot -> "snapshot" | ONothing -> "nothing" | ORefusedOrigin -> "refused" | OUnreadableSnapshot -> "unreadable"
 let show_crash = function
   | CrTypeError -> "TypeError" | CrNotADirectory -> "NotADirectoryError" | CrFileNotFound -> "FileNotFoundError"
-  | CrNotGitRepository -> "NotGitRepository" | CrValueError -> "ValueError"
+  | CrNotGitRepository -> "NotGitRepository" | CrValueError -> "ValueError" | CrStopIteration -> "StopIteration"
 let show_outcome = function
   | Print (o, e, s, l) -> String.concat "," ["print"; show_obj o; b e; b s; b l]
-  | Usage -> "usage" | Exit0 -> "exit0" | Exit1 -> "exit1"
+  | Usage -> "usage" | Exit0 -> "exit0" | Exit1 -> "exit1" | Silent -> "silent"
   | Crash c -> "crash," ^ show_crash c
 let show_line (((o, e), s), l) = String.concat "," [show_obj o; b e; b s; b l]
 let show_end = function
@@ -52,7 +52,8 @@ let () = serve (function
         "strict=" ^ show_outcome (spec_strict c);
         "old1=" ^ show_outcome (identify_old_realpath c); "old2=" ^ show_outcome (identify_old_rectype c);
         "old3=" ^ show_outcome (identify_old_autolink c); "old4=" ^ show_outcome (identify_old_recfollows c);
-        "old5=" ^ show_outcome (identify_old_originuncaught c) ]
+        "old5=" ^ show_outcome (identify_old_originuncaught c);
+        "old6=" ^ show_outcome (identify_old_stopswallowed c) ]
   | ["many"; t; d; f; r; v; x; ks] ->
       let c = { arg = AFile; ty = type_of t; deref = bool_of d; fname = bool_of f; recur = bool_of r;
                 ver = ver_of v; excl = bool_of x } in
